@@ -308,3 +308,64 @@ def text_variant(rnd, case):
     a = [ord(c) for c in arg]; sd = [ord(c) for c in stdin]
     nums = x[:i] + [has, len(a)] + a + [len(sd)] + sd
     return "DBGT " + " ".join(f"{v:x}" for v in nums), mode
+
+
+# ---------------------------------------------------------------- the real binary, hooks off
+
+VM_MESSAGES = ("exception: ", "unexpected end of input file stream.", "You called a reserved instruction.",
+               "Note: Run with `-f stack`", "Halting...")
+
+
+def cli_cross(ctx, specs, violations, limit=40, tag="cli"):
+    """A sample of the sessions through the REAL `lace debug --minimal` binary built WITHOUT the lace_verif guard
+    (the configuration users run): exit status, program output and debugger stderr against the model (script as text,
+    DebugText.v).  Ties the hooked in-process runs to the unhooked program.  Sessions using `eval` or `help` are left
+    out (their stderr is rendered by miette / is the help text, canonicalised by hook markers only in-process)."""
+    import clicommon, os
+    exe = ctx.cli()
+    rnd = random.Random(ctx.seed + 77)
+    picks = [sp for sp in specs if not any(c[0] in ("eval", "help") for c in sp[4])]
+    rnd.shuffle(picks)
+    picks = picks[:limit]
+    if not picks:
+        return {"sessions": 0}
+    d = clicommon.fresh_dir(ctx, "clidbg")
+    cases, jobs = [], []
+    for k, (tg, feat, src, inp, cmds) in enumerate(picks):
+        text = dbggen.script_text(rnd, cmds)
+        cases.append(text_twin(dbggen.dbg_case(feat, 3000, src, inp, cmds, text)))
+        f = os.path.join(d, f"s{k}.asm")
+        with open(f, "w", encoding="utf-8") as fh:
+            fh.write(src)
+        args = ["debug", f, "--minimal"] + (["-f", "stack"] if feat else []) + ["--command", text]
+        jobs.append((lambda a=args, i=bytes(inp): clicommon.run_cli(exe, a, d, stdin=i, timeout=20)))
+    model = ctx.run_model(cases, tag="clidbg")
+    got = clicommon.parallel(jobs)
+    n = bad = 0
+    for (tg, feat, src, inp, cmds), case, m, (rc, so, se) in zip(picks, cases, model, got):
+        fm, em = dbggen.decode_lines(m)
+        sm = dbggen.split_first(fm) if fm not in ([9], [8]) else None
+        if sm is None or sm["kind"] in (3, 4):
+            continue
+        n += 1
+        want_rc = {0: 0, 1: sm["code"], 2: 101, 7: 0}[sm["kind"]]
+        out = clicommon.program_output(so)
+        want_out = "".join(chr(c) for c in sm["out"])
+        err = [l for l in se.decode("utf-8", errors="replace").split("\n")
+               if l and not any(l.startswith(v) for v in VM_MESSAGES)]
+        why = None
+        if rc != want_rc:
+            why = f"exit status {rc}, model {want_rc}"
+        elif out is None or out.rstrip("\n") != want_out.rstrip("\n"):
+            why = "program output differs"
+        elif err != em:
+            why = "debugger stderr differs"
+        if why:
+            bad += 1
+            if bad <= 3:
+                violations.append({"kind": "real-binary-vs-model", "why": why, "tag": tg, "case": case, "source": src,
+                                   "feature_stack": feat, "input": list(inp), "script": dbggen.script_text(random.Random(0), cmds),
+                                   "cli_exit": rc, "cli_stdout": so.decode("utf-8", errors="replace")[-600:],
+                                   "cli_stderr": err[-30:], "model_exit": want_rc, "model_out": want_out, "model_stderr": em[-30:]})
+    return {"sessions": n, "mismatches": bad,
+            "rule": "sessions through the real `lace debug --minimal --command ...` built WITHOUT --cfg lace_verif: exit status, program output, debugger stderr vs the model"}
